@@ -4,6 +4,7 @@ import (
 	"encoding/binary"
 	"fmt"
 	"testing"
+	"time"
 
 	"verif/harness/kit"
 	"verif/harness/ref"
@@ -208,6 +209,7 @@ type c10bCase struct {
 	Stream  kit.Hex  `json:"stream"`
 	Cuts    []int    `json:"read_cuts"`
 	Classes []string `json:"attack_classes"`
+	Idle    []int    `json:"silent_for_6s_after_read,omitempty"` // read numbers (modulo the number of reads) after which the peer stays silent for 6 s: the next read runs the re-request path
 }
 
 // newHandlers mirrors service.createDefaultHandle: one model object per command per connection (reused).
@@ -254,7 +256,7 @@ func genC10b(t *rapid.T) c10bCase {
 		switch rapid.IntRange(0, 7).Draw(t, "kind") {
 		case 0: // adversarial package fields
 			s.Fragmented = true
-			s.Total = rapid.SampledFrom([]uint16{0, 1, 2, 3, 0xffff}).Draw(t, "tot")
+			s.Total = rapid.SampledFrom([]uint16{0, 1, 2, 3, 0xffff, 256, 257, 300, 513}).Draw(t, "tot")
 			s.No = rapid.SampledFrom([]uint16{0, 1, 2, 3, 4, 0xffff}).Draw(t, "no")
 			class["hostile_package_numbers"] = true
 			c.Stream = append(c.Stream, s.Build()...)
@@ -278,7 +280,14 @@ func genC10b(t *rapid.T) c10bCase {
 		c.Stream = c.Stream[:rapid.IntRange(1, len(c.Stream)-1).Draw(t, "close_at")]
 		class["closed_mid_frame"] = true
 	}
+	for i, n := 0, rapid.SampledFrom([]int{0, 0, 1, 2}).Draw(t, "idles"); i < n; i++ {
+		c.Idle = append(c.Idle, rapid.IntRange(0, 20).Draw(t, "idle_after"))
+	}
 	k := rapid.IntRange(0, 6).Draw(t, "ncuts")
+	if len(c.Idle) > 0 {
+		k = max(k, 2)
+		class["silence_between_reads"] = true
+	}
 	for i := 0; i < k && len(c.Stream) > 1; i++ {
 		c.Cuts = append(c.Cuts, rapid.IntRange(1, len(c.Stream)-1).Draw(t, "cut"))
 	}
@@ -295,7 +304,13 @@ func checkC10b(c c10bCase, _ *kit.Collector) kit.Result {
 	fd := newFeeder(true)
 	handlers := newHandlers() // per-connection, reused for every message like createDefaultHandle's
 	accepted := 0
-	for _, p := range split(c.Stream, c.Cuts) {
+	reads := split(c.Stream, c.Cuts)
+	for j, p := range reads {
+		for _, at := range c.Idle {
+			if j > 0 && at%len(reads) == j-1 {
+				fd.ex.Advance(6 * time.Second)
+			}
+		}
 		out, err := fd.feed(p)
 		for _, d := range out {
 			accepted++
